@@ -813,3 +813,67 @@ Proof.
   intros Hm. unfold find_gaps. apply (gaps_go_bounded s Hm _ 0 false 0); [|intros; discriminate].
   unfold zseq, npieces, zlen. pose proof (consec_zseq (length (pieces (base s))) 0) as H. cbn [Z.of_nat Nat.add] in H. exact H.
 Qed.
+
+(* ---------- a range taken from the gaps consists of pieces that are neither done nor being written ---------- *)
+Theorem gap_range_is_open s b e s1 : find_gaps s <> [] -> ws_check s (Some (b, e)) = Some s1 ->
+  s1 = s /\ 0 <= b /\ b < e /\ e <= npieces s /\
+  forall i, b <= i < e -> open_ (get_piece (base s) i) = true /\ get_owner s i = None.
+Proof.
+  intros Hne H. unfold ws_check in H. destruct (find_gaps s) as [|g0 gs] eqn:Eg; [congruence|].
+  assert (Fin : forall g, In g (g0 :: gs) -> gap_ok s g) by (intros g Hg; apply find_gaps_ok; rewrite Eg; exact Hg).
+  assert (Conv : forall g, gap_ok s g -> 0 <= fst g /\ fst g < snd g /\ snd g <= npieces s /\
+            forall i, fst g <= i < snd g -> open_ (get_piece (base s) i) = true /\ get_owner s i = None).
+  { intros g (A & B & C & D). repeat split; try lia; destruct (avail_ws_free s i (D i H0)); assumption. }
+  destruct (sequential (base s)).
+  - destruct (first_tail s) as [i|] eqn:Et.
+    + destruct ((b =? i) && (e =? i + 1)) eqn:Ebe; [|discriminate]. inversion H; subst s1.
+      assert (b = i) by lia. assert (e = i + 1) by lia. subst b e.
+      unfold first_tail in Et. apply find_some in Et as [Hin Hc]. apply andb_prop in Hc as [_ Hc].
+      unfold zseq in Hin. apply in_map_iff in Hin as (n & <- & Hn). apply in_seq in Hn. unfold npieces, zlen.
+      split; [reflexivity|]. repeat split; try lia; assert (i = Z.of_nat n) by lia; subst; destruct (avail_ws_free s _ Hc); assumption.
+    + destruct ((b =? fst g0) && (e =? snd g0)) eqn:Ebe; [|discriminate]. inversion H; subst s1.
+      assert (b = fst g0) by lia. assert (e = snd g0) by lia. subst b e. split; [reflexivity|]. apply Conv. apply Fin. left; reflexivity.
+  - match type of H with context [existsb ?f ?l] => destruct (existsb f l) eqn:Ee; [|discriminate] end. inversion H; subst s1.
+    apply existsb_exists in Ee as (g & Hin & Hc). apply andb_prop in Hc as [Hc _]. apply andb_prop in Hc as [Hc1 Hc2].
+    assert (b = fst g) by lia. assert (e = snd g) by lia. subst b e. split; [reflexivity|]. apply Conv. apply Fin. exact Hin.
+Qed.
+
+(* ---------- a web seed stealing from another: the victim keeps its current piece ---------- *)
+Theorem webseed_steal_splits s b e s1 : WInv s -> find_gaps s = [] -> ws_check s (Some (b, e)) = Some s1 ->
+  exists k d, 0 <= k < zlen (srcs s) /\ get_src s k = Some d /\ b = steal_begin d /\ e = d_end d /\
+              d_cur d < b /\ b < e /\
+              get_src s1 k = Some {| d_begin := d_begin d; d_end := b; d_cur := d_cur d |} /\
+              (forall j, b <= j < e -> get_owner s1 j = None).
+Proof.
+  intros I Eg H. unfold ws_check in H. rewrite Eg in H.
+  destruct (dl_srcs s) as [|x xs] eqn:Ed; [discriminate|]. rewrite <- Ed in H.
+  match type of H with context [find ?f ?l] => destruct (find f l) as [[k d]|] eqn:Ef; [|discriminate] end.
+  apply find_some in Ef as [Hin Hc]. apply filter_In in Hin as [Hin _]. apply dl_srcs_in in Hin as [Hk E].
+  cbn [snd] in Hc. apply andb_prop in Hc as [Hc Hc3]. apply andb_prop in Hc as [Hc1 Hc2].
+  assert (e = d_end d) by lia. assert (b = steal_begin d) by lia. subst e b.
+  destruct (w_dl s I k d Hk E) as (D1 & D2 & D3 & D4 & D5).
+  assert (Hgt : d_cur d < steal_begin d) by (apply steal_begin_gt; lia).
+  destruct (stop_at_ok s k d (steal_begin d) I Hk E ltac:(lia)) as (s' & c & Es & I' & B' & N' & S' & F' & C1 & _).
+  rewrite Es in H. cbn [option_map fst] in H. inversion H; subst s1.
+  exists k, d. destruct (C1 Hgt) as [_ G]. repeat split; try assumption; try lia. 
+Qed.
+
+(* ---------- a peer stealing from a web seed: the piece leaves the web seed's range, the web seed keeps
+   everything up to and including the piece it is working on ---------- *)
+Theorem peer_steal_releases s pe i af s' : WInv s -> downloading_ws s = true -> gap_cands s pe = [] ->
+  wpick_check s pe (Some (i, af)) = Some s' ->
+  exists k d, 0 <= k < zlen (srcs s) /\ get_src s k = Some d /\ d_cur d < i < d_end d /\
+              get_src s' k = Some {| d_begin := d_begin d; d_end := i; d_cur := d_cur d |} /\
+              get_owner s' i = None.
+Proof.
+  intros I Hd Eg H. unfold wpick_check in H. rewrite Hd in H.
+  destruct (pe_downloading (get_peer (peers (base s)) pe)); [discriminate|].
+  destruct (pe_choking (get_peer (peers (base s)) pe)); [discriminate|].
+  rewrite Eg in H. destruct (peer_steal s pe) as [[k j]|] eqn:Es; [|discriminate].
+  destruct ((i =? j) && _) eqn:Ec; [|discriminate]. apply andb_prop in Ec as [Ec _]. assert (i = j) by lia. subst j.
+  unfold peer_steal in Es. apply peer_steal_go_spec in Es as (d & Hin & Hr & Hc). apply dl_srcs_in in Hin as [Hk Ek].
+  destruct (w_dl s I k d Hk Ek) as (D1 & D2 & D3 & D4 & D5).
+  destruct (stop_at_ok s k d i I Hk Ek ltac:(lia)) as (s1 & c & Est & I1 & B1 & N1 & S1 & F1 & C1 & _).
+  rewrite Est in H. inversion H; subst s'. exists k, d. destruct (C1 ltac:(lia)) as [_ G].
+  split; [exact Hk|]. split; [exact Ek|]. split; [lia|]. split; [exact G|]. apply F1. lia.
+Qed.
